@@ -47,8 +47,6 @@ var knownList []lib.Known
 
 const (
 	knownAlign = "C04-pretty-align-comma"
-	knownOmit  = "C04-pretty-omit"
-	knownMixed = "C04-pretty-align-mixed"
 )
 
 var writeLimits = []int{1, 2, 3, 7, 64, 1024}
@@ -538,16 +536,10 @@ func judge(d *lib.Driver, it *item, ans []string) {
 			"impl": fmt.Sprintf("%q", string(trunc(it.runs[0].out))), "spec": string(trunc([]byte(ansOr(ans, it.runs[0].spec))))})
 	}
 	// the Lean `norm` against the harness's expected tree (ties the statement of C04_oj to the oracle)
-	// (for pretty: the Lean `normP`, the statement of C04_pretty_partial, against the harness's prettyNorm,
-	// the predicate of the known finding C04-pretty-omit)
+	// (for pretty: `norm` under the oj options with the same meaning, the statement of C04_pretty_noalign)
 	if it.norm >= 0 {
 		var sb strings.Builder
-		if c.Fam == "pretty" {
-			pexp, _ := c.T.prettyNorm(omitNil, omitEmpty)
-			pexp.expectCanon(&sb)
-		} else {
-			exp.expectCanon(&sb)
-		}
+		exp.expectCanon(&sb)
 		if ans[it.norm] != sb.String() {
 			finding("disagreement", "norm", "Lean norm and the harness's expected tree differ", c, nil,
 				map[string]any{"lean_norm": ans[it.norm], "harness_expected": sb.String()})
@@ -655,30 +647,9 @@ func readSpec(a string) *lib.Node {
 // judgeText is the oracle for one text.
 func judgeText(d *lib.Driver, c *Case, r *run, exp *T, specAns string, omitNil, omitEmpty bool) {
 	node := readSpec(specAns)
-	// an alignment table with a column that holds arrays in some rows and maps in others: cells are
-	// matched by position when written but by key when the table is built; members are lost and
-	// separators misplaced (known finding, decided on the tree alone)
-	mixed := func() bool {
-		if c.Fam != "pretty" || !c.PR.Align || !lib.HasKnown(knownList, knownMixed) {
-			return false
-		}
-		pexp, _ := c.T.prettyNorm(omitNil, omitEmpty)
-		return pexp.hasMixedAlignTable(c.PR.MaxDepth)
-	}
 	if node != nil {
 		ok, why := denotes(exp, node)
 		if ok {
-			return
-		}
-		if c.Fam == "pretty" && (omitNil || omitEmpty) && lib.HasKnown(knownList, knownOmit) {
-			pexp, _ := c.T.prettyNorm(omitNil, omitEmpty)
-			if ok2, _ := denotes(pexp, node); ok2 && !pexp.equal(exp) {
-				knownFinding(knownOmit, "denote:"+r.entry+":"+code(why), "pretty drops more than OmitNil/OmitEmpty say: "+why, c, r, map[string]any{"spec": truncS(specAns)})
-				return
-			}
-		}
-		if mixed() {
-			knownFinding(knownMixed, "denote:"+r.entry+":"+code(why), "aligned table with a column mixing arrays and maps: "+why, c, r, map[string]any{"spec": truncS(specAns)})
 			return
 		}
 		finding("violation", "denote:"+r.entry+":"+code(why), "the text is valid JSON but does not denote the data written: "+why, c, r, map[string]any{"spec": truncS(specAns)})
@@ -693,21 +664,9 @@ func judgeText(d *lib.Driver, c *Case, r *run, exp *T, specAns string, omitNil, 
 						knownFinding(knownAlign, "invalid:"+r.entry, "aligned row without its last column ends in a comma", c, r, nil)
 						return
 					}
-					if (omitNil || omitEmpty) && lib.HasKnown(knownList, knownOmit) {
-						pexp, _ := c.T.prettyNorm(omitNil, omitEmpty)
-						if ok2, _ := denotes(pexp, node2); ok2 {
-							knownFinding(knownAlign, "invalid:"+r.entry, "aligned row without its last column ends in a comma", c, r, nil)
-							knownFinding(knownOmit, "denote:"+r.entry+":members", "pretty drops more than OmitNil/OmitEmpty say", c, r, nil)
-							return
-						}
-					}
 				}
 			}
 		}
-	}
-	if mixed() {
-		knownFinding(knownMixed, "invalid:"+r.entry, "aligned table with a column mixing arrays and maps: the text is not valid JSON", c, r, nil)
-		return
 	}
 	finding("violation", "invalid:"+r.entry, "the text is not valid JSON ("+specAns+")", c, r, nil)
 }
